@@ -97,6 +97,30 @@ class C18:
                               (t[1][0] == "sub" and t[1][1] == ("global", "soundevent.io.loader:LOADERS", "assign"))
         is_loader3 = lambda t: t[1] == ("global", f"{AOEF_PKG}:load", "func")
         self.hop("soundevent.io.loader", "load", lambda t: is_loader(t) or is_loader3(t), load.params, "the format's loader")
+        # the format that selects the saver / loader is the caller's `format` when one is given and the one inferred from the path
+        # otherwise (three scenarios of the condition under which the AOEF saver / loader is reached)
+        from sa.peval import peval, truth
+        for modname, fname, pred in (("soundevent.io.saver", "save", is_saver3), ("soundevent.io.loader", "load", is_loader3)):
+            fs = ctx.summ.of_func(modname, fname)
+            if "format" not in fs.params:
+                continue
+            F = ("param", "format")
+            inf = ("call", ("global", "soundevent.io.formats:infer_format", "func"), (("param", "path"),), ())
+            for e in fs.calls:
+                if not pred(e.term):
+                    continue
+                site = f"{fs.module.relpath}:{e.lineno} {fname}"
+                got = (truth(peval(e.live, {F: "aoef", inf: "crowsetta"})), truth(peval(e.live, {F: "crowsetta", inf: "aoef"})), truth(peval(e.live, {F: None, inf: "aoef"})),
+                       truth(peval(e.live, {F: None, inf: "crowsetta"})))
+                if got == (True, False, True, False):
+                    ctx.ok("R18.1", site, "reached exactly when the given format -- or, without one, the format inferred from the path -- is 'aoef'")
+                elif None in got:
+                    ctx.undec("R18.1", site, f"cannot decide when the AOEF {'saver' if fname == 'save' else 'loader'} is selected: {show(e.live)[:100]}")
+                else:
+                    ctx.bad("R18.1", fs.module.relpath, fname, f"format selection `{show(e.live)[:80]}`",
+                            f"io.{fname}: the AOEF {'saver' if fname == 'save' else 'loader'} is selected under `{show(e.live)[:120]}` -- (format='aoef', format='crowsetta', no format + "
+                            f"path inferred as aoef, no format + path inferred otherwise) -> {got}, expected (True, False, True, False): an "
+                            f"explicitly given format is ignored or a missing one is not inferred", e.lineno)
         to_aeof = ctx.summ.of_func(AOEF_PKG, "to_aeof")
         to_se = ctx.summ.of_func(AOEF_PKG, "to_soundevent")
         self.hop(AOEF_PKG, "save", lambda t: t[1] == ("global", f"{AOEF_PKG}:to_aeof", "func"), to_aeof.params, "to_aeof")
